@@ -40,6 +40,21 @@ pub struct PropertyDef {
     pub scenarios: Vec<Scenario>,
 }
 
+pub mod common;
+#[cfg(feature = "sched")]
+pub mod c09;
+#[cfg(feature = "sched")]
+pub mod lin;
+#[cfg(feature = "sched")]
+pub mod c02;
+#[cfg(feature = "sched")]
+pub mod c04;
+#[cfg(feature = "sched")]
+pub mod c01;
+#[cfg(feature = "sched")]
+pub mod c07;
+#[cfg(feature = "sched")]
+pub mod c16;
 #[cfg(feature = "sched")]
 pub mod c05;
 #[cfg(feature = "sched")]
@@ -51,6 +66,18 @@ pub fn property(id: &str, ctx: &Ctx) -> Option<PropertyDef> {
         "C05" => Some(c05::def(ctx)),
         #[cfg(feature = "sched")]
         "C12" => Some(c12::def(ctx)),
+        #[cfg(feature = "sched")]
+        "C09" => Some(c09::def(ctx)),
+        #[cfg(feature = "sched")]
+        "C02" => Some(c02::def(ctx)),
+        #[cfg(feature = "sched")]
+        "C04" => Some(c04::def(ctx)),
+        #[cfg(feature = "sched")]
+        "C01" => Some(c01::def(ctx)),
+        #[cfg(feature = "sched")]
+        "C07" => Some(c07::def(ctx)),
+        #[cfg(feature = "sched")]
+        "C16" => Some(c16::def(ctx)),
         _ => None,
     }
 }
